@@ -160,7 +160,7 @@ def run(chk):
     binary = cc.build_ft(chk)
     if binary:
         try:
-            corpus = [cc.parse_line(l) for l in all_corpus if l.startswith("ftc")]
+            corpus = [cc.parse_line(l) for l in all_corpus if l.startswith(("ftc", "ftm"))]
             cc.check_batch(chk, binary, "corpus", corpus, cc.monitor_c04, nontrivial=nontrivial)
             sample_lines = []
             for name, scripts in gen(chk, binary, chk.tier):
